@@ -304,7 +304,7 @@ func (c *Ctx) Finish() int {
 	}
 	seed, _ := strconv.Atoi(os.Getenv("VERIF_SEED"))
 	cov := map[string]any{
-		"explanation": "Static analysis of /repo's type-checked source (go/packages, go/ast, go/types, go/cfg; go/ssa+VTA in the thorough tier). " +
+		"explanation": "Static analysis of /repo's type-checked source (go/packages, go/ast, go/types, go/cfg; an abstract evaluator for functions read from that source). " +
 			"Each obligation is a (rule, construct) pair; all must be discharged. Obligations decide structural necessary conditions of the property, not the behaviour as a whole. Rules: " + strings.Join(expl, " | "),
 		"obligations":         len(c.Obls),
 		"discharged":          discharged,
